@@ -122,7 +122,13 @@ func (s *JSchema) Example() (b []byte, err error) {
 		return nil, kit.NewJSchemaError(s.File, errs.ErrEmptySchema.F())
 	}
 
-	return newExampleBuilder(s.Inner.TypesList()).Build(s.Inner.RootNode())
+	ex, err := newExampleBuilder(s.Inner.TypesList()).Build(s.Inner.RootNode())
+	if err != nil {
+		return nil, err
+	}
+	// The example of a scalar is a piece of the schema text itself: the caller
+	// gets a copy, so that writing into it cannot change the schema.
+	return append([]byte(nil), ex...), nil
 }
 
 func (s *JSchema) AddType(name string, sc schema.Schema) (err error) {
